@@ -50,6 +50,42 @@ func caseText(p string, seed int64, j sharing.ID, lab string) string {
 	return fmt.Sprintf("%s seed=%d party=%d label=%s", p, seed, uint64(j), lab)
 }
 
+func caseTextC(p string, seed int64, j sharing.ID, lab string, chunk int) string {
+	t := caseText(p, seed, j, lab)
+	if chunk > 0 {
+		t += fmt.Sprintf(" chunk=%d", chunk)
+	}
+	return t
+}
+
+// run executes one protocol run with tapes that serve at most `chunk` bytes per Read (0: no limit).
+func (c *checker) run(p protoSpec, seed int64, labels map[sharing.ID]string, chunk int) *obs {
+	var o *obs
+	drive.DefaultChunk = chunk
+	pn := vh.Safely(func() { o = p.Run(seed, labels) })
+	drive.DefaultChunk = 0
+	if pn != "" {
+		c.mismatch("prop", p.Name+"-panic", "driver panicked: "+pn, caseTextC(p.Name, seed, 0, fmt.Sprint(labels), chunk), "C07 harness", false)
+		return nil
+	}
+	o.Chunk = chunk
+	return o
+}
+
+func commonEnds(a, b []byte) (prefix, suffix int) {
+	n := len(a)
+	if len(b) < n {
+		n = len(b)
+	}
+	for prefix < n && a[prefix] == b[prefix] {
+		prefix++
+	}
+	for suffix < n && a[len(a)-1-suffix] == b[len(b)-1-suffix] {
+		suffix++
+	}
+	return
+}
+
 func labelsAll(ids []sharing.ID, l string) map[sharing.ID]string {
 	m := map[sharing.ID]string{}
 	for _, id := range ids {
@@ -114,10 +150,14 @@ func samePayloads(a, b []*drive.Msg) (bool, string) {
 
 // pairCheck evaluates (iii) on runs A (all labels default) and B (party j relabelled).
 func (c *checker) pairCheck(p protoSpec, seed int64, j sharing.ID, A, B *obs) {
-	kase := caseText(p.Name, seed, j, "b")
+	kase := caseTextC(p.Name, seed, j, "b", A.Chunk)
 	what := "C07 (iii) paired runs differing in one party's tape (msgs_function_of_own_tape / joint_value_depends)"
+	pname := p.Name
+	if A.Chunk > 0 {
+		pname += "-stingy"
+	}
 	if B.Err != "" {
-		c.mismatch("prop", p.Name+"-pair-run-failed", "run with party "+fmt.Sprint(uint64(j))+" relabelled did not complete: "+B.Err, kase, what, true)
+		c.mismatch("prop", pname+"-pair-run-failed", "run with party "+fmt.Sprint(uint64(j))+" relabelled did not complete: "+B.Err, kase, what, true)
 		return
 	}
 	f := firstDrawRound(A, j)
@@ -136,20 +176,20 @@ func (c *checker) pairCheck(p protoSpec, seed int64, j sharing.ID, A, B *obs) {
 			}
 		}
 		if !same {
-			c.mismatch("prop", p.Name+"-pair-nodraw-changed", "party "+fmt.Sprint(uint64(j))+" draws nothing from its tape, yet relabelling the tape changed the run: "+why, kase, what, true)
+			c.mismatch("prop", pname+"-pair-nodraw-changed", "party "+fmt.Sprint(uint64(j))+" draws nothing from its tape, yet relabelling the tape changed the run: "+why, kase, what, true)
 		}
-		c.res.Count(p.Name+"/pair-nodraw", kase, true)
+		c.res.Count(pname+"/pair-nodraw", kase, true)
 		return
 	}
 	// (a) everything j sent before its first draw is identical
 	if ok, w := samePayloads(msgsFrom(A, j, func(r int) bool { return r < f }), msgsFrom(B, j, func(r int) bool { return r < f })); !ok {
-		c.mismatch("prop", p.Name+"-pair-predraw-changed", "a message of party "+fmt.Sprint(uint64(j))+" sent before its first draw changed: "+w, kase, what, true)
+		c.mismatch("prop", pname+"-pair-predraw-changed", "a message of party "+fmt.Sprint(uint64(j))+" sent before its first draw changed: "+w, kase, what, true)
 	}
 	// (b) j's messages of its first drawing round differ
 	ja, jb := msgsFrom(A, j, func(r int) bool { return r == f }), msgsFrom(B, j, func(r int) bool { return r == f })
 	if len(ja) > 0 {
 		if ok, _ := samePayloads(ja, jb); ok {
-			c.mismatch("prop", p.Name+"-pair-own-unchanged", fmt.Sprintf("party %d's round-%d messages are byte-identical although only its random tape changed (%d vs %d bytes drawn)", uint64(j), f, tapeBytes(A, j), tapeBytes(B, j)), kase, what, true)
+			c.mismatch("prop", pname+"-pair-own-unchanged", fmt.Sprintf("party %d's round-%d messages are byte-identical although only its random tape changed (%d vs %d bytes drawn)", uint64(j), f, tapeBytes(A, j), tapeBytes(B, j)), kase, what, true)
 		}
 	}
 	// every randomised field of j differs
@@ -159,7 +199,12 @@ func (c *checker) pairCheck(p protoSpec, seed int64, j sharing.ID, A, B *obs) {
 			continue
 		}
 		if bytes.Equal(fa[i].Got, fb[i].Got) {
-			c.mismatch("prop", p.Name+"-pair-field-unchanged", fmt.Sprintf("field %s of party %d is unchanged (%s) although only its random tape changed", fa[i].Name, uint64(j), vh.Hex(fa[i].Got)), kase, what, true)
+			c.mismatch("prop", pname+"-pair-field-unchanged", fmt.Sprintf("field %s of party %d is unchanged (%s) although only its random tape changed", fa[i].Name, uint64(j), vh.Hex(fa[i].Got)), kase, what, true)
+		} else if fa[i].Kind == "raw" && len(fa[i].Got) >= 16 {
+			// a raw random value that is partly constant (e.g. the tail a short Read left unfilled)
+			if pre, suf := commonEnds(fa[i].Got, fb[i].Got); pre >= 6 || suf >= 6 {
+				c.mismatch("prop", pname+"-pair-field-partly-constant", fmt.Sprintf("field %s of party %d keeps %d leading / %d trailing bytes (%s vs %s) although only its random tape changed", fa[i].Name, uint64(j), pre, suf, vh.Hex(fa[i].Got), vh.Hex(fb[i].Got)), kase, what, true)
+			}
 		}
 	}
 	// (c) the other parties' first-round messages (nothing received yet) are identical
@@ -172,19 +217,19 @@ func (c *checker) pairCheck(p protoSpec, seed int64, j sharing.ID, A, B *obs) {
 			// proof bytes depend on goroutine scheduling: compare the deterministic fields only
 			for k := range fa {
 				if fa[k].Party == i && fa[k].Round == r0 && k < len(fb) && !bytes.Equal(fa[k].Got, fb[k].Got) {
-					c.mismatch("prop", p.Name+"-pair-other-changed", fmt.Sprintf("first-round field %s of party %d changed when only party %d's tape changed", fa[k].Name, uint64(i), uint64(j)), kase, what, true)
+					c.mismatch("prop", pname+"-pair-other-changed", fmt.Sprintf("first-round field %s of party %d changed when only party %d's tape changed", fa[k].Name, uint64(i), uint64(j)), kase, what, true)
 				}
 			}
 			continue
 		}
 		if ok, w := samePayloads(msgsFrom(A, i, func(r int) bool { return r == r0 }), msgsFrom(B, i, func(r int) bool { return r == r0 })); !ok {
-			c.mismatch("prop", p.Name+"-pair-other-changed", fmt.Sprintf("first-round message of party %d changed when only party %d's tape changed: %s", uint64(i), uint64(j), w), kase, what, true)
+			c.mismatch("prop", pname+"-pair-other-changed", fmt.Sprintf("first-round message of party %d changed when only party %d's tape changed: %s", uint64(i), uint64(j), w), kase, what, true)
 		}
 		// its tape served the same bytes in the same pattern
 		if A.Tr.Tapes[i] != nil && B.Tr.Tapes[i] != nil && !p.Sched && A.Tr.Tapes[i].ReadsText() != B.Tr.Tapes[i].ReadsText() {
 			// later rounds may legitimately depend on what was received (rejection sampling); only round-1 reads are compared
 			if readsOfTag(A.Tr.Tapes[i], r0) != readsOfTag(B.Tr.Tapes[i], r0) {
-				c.mismatch("prop", p.Name+"-pair-other-draws-changed", fmt.Sprintf("party %d's first-round draws changed when only party %d's tape changed", uint64(i), uint64(j)), kase, what, true)
+				c.mismatch("prop", pname+"-pair-other-draws-changed", fmt.Sprintf("party %d's first-round draws changed when only party %d's tape changed", uint64(i), uint64(j)), kase, what, true)
 			}
 		}
 	}
@@ -197,10 +242,10 @@ func (c *checker) pairCheck(p protoSpec, seed int64, j sharing.ID, A, B *obs) {
 			break
 		}
 		if A.Joint[i].V == B.Joint[i].V {
-			c.mismatch("prop", p.Name+"-pair-joint-unchanged", fmt.Sprintf("joint value %s = %s is the same in two runs that differ in party %d's random tape", A.Joint[i].K, A.Joint[i].V, uint64(j)), kase, what, true)
+			c.mismatch("prop", pname+"-pair-joint-unchanged", fmt.Sprintf("joint value %s = %s is the same in two runs that differ in party %d's random tape", A.Joint[i].K, A.Joint[i].V, uint64(j)), kase, what, true)
 		}
 	}
-	c.res.Count(p.Name+"/pair", kase, true)
+	c.res.Count(pname+"/pair", kase, true)
 }
 
 func readsOfTag(t *drive.Tape, round int) string {
@@ -221,6 +266,9 @@ func (c *checker) freshCheck(p protoSpec, seed int64, runs []*obs) {
 	seen := map[string]string{}
 	for s, o := range runs {
 		kase := fmt.Sprintf("%s seed=%d sessions=%d", p.Name, seed, len(runs))
+		if o.Chunk > 0 {
+			kase += fmt.Sprintf(" chunk=%d", o.Chunk)
+		}
 		if o.Err != "" {
 			c.mismatch("prop", p.Name+"-session-run-failed", fmt.Sprintf("session %d did not complete: %s", s, o.Err), kase, what, true)
 			continue
@@ -245,6 +293,49 @@ func (c *checker) freshCheck(p protoSpec, seed int64, runs []*obs) {
 			seen[k] = who
 		}
 		c.res.Count(p.Name+"/session", fmt.Sprintf("%s#%d", kase, s), true)
+	}
+}
+
+// stingy runs protocol p with tapes that serve at most `chunk` bytes per Read call (a legal
+// io.Reader): (a) the honest run still completes, (b) every randomised field is still the
+// model's function of the bytes actually served (the tie works on the byte log) and the same
+// number of bytes is drawn per round, (c) paired runs and freshness still hold.  Code that calls
+// prng.Read(buf) and ignores the count draws only part of a value from the supplied source.
+func (c *checker) stingy(p protoSpec, seed int64, chunk int, rot int) {
+	kase := caseTextC(p.Name, seed, 0, "a", chunk)
+	A := c.run(p, seed, nil, chunk)
+	if A == nil {
+		return
+	}
+	if A.Err != "" {
+		c.mismatch("prop", p.Name+"-stingy-run-failed", fmt.Sprintf("with random sources that serve at most %d bytes per Read call the honest run does not complete: %s", chunk, A.Err), kase,
+			"C07 stingy source: the protocol draws its randomness with io.ReadFull-style loops", false)
+		return
+	}
+	c.res.Count(p.Name+"-stingy/base", kase, true)
+	c.tie(p, seed, 0, "a", A)
+	positions := []sharing.ID{A.IDs[rot%len(A.IDs)]}
+	if (c.a.Tier == "thorough" || c.a.Search) && !p.Heavy {
+		positions = A.IDs
+	}
+	for _, j := range positions {
+		B := c.run(p, seed, map[sharing.ID]string{j: "b"}, chunk)
+		if B == nil {
+			continue
+		}
+		c.pairCheck(p, seed, j, A, B)
+		if B.Err == "" {
+			c.tie(p, seed, j, "b", B)
+		}
+	}
+	if p.Signing && (!p.Heavy || c.a.Tier == "thorough") {
+		S := c.run(p, seed, labelsAll(A.IDs, "s1"), chunk)
+		if S != nil {
+			if S.Err == "" {
+				c.tie(p, seed, 0, "s1", S)
+			}
+			c.freshCheck(p, seed, []*obs{A, S})
+		}
 	}
 }
 
@@ -296,7 +387,20 @@ func main() {
 		}
 	}
 	dump := os.Getenv("C07_DUMP") != ""
-	for _, p := range protos {
+	if os.Getenv("C07_STINGY_ONLY") != "" {
+		for pi, p := range protos {
+			if c.only != "" && !strings.HasPrefix(p.Name, c.only) {
+				continue
+			}
+			t0 := time.Now()
+			for _, ch := range []int{1, 7, 31} {
+				c.stingy(p, a.Seed, ch, pi)
+			}
+			res.Note("time %s (stingy): %.1fs", p.Name, time.Since(t0).Seconds())
+		}
+		protos = nil
+	}
+	for pi, p := range protos {
 		if c.only != "" && !strings.HasPrefix(p.Name, c.only) {
 			continue
 		}
@@ -305,9 +409,8 @@ func main() {
 			if p.Heavy && si > 0 {
 				continue
 			}
-			var A *obs
-			if pn := vh.Safely(func() { A = p.Run(seed, nil) }); pn != "" {
-				c.mismatch("prop", p.Name+"-panic", "driver panicked: "+pn, caseText(p.Name, seed, 0, "a"), "C07 harness", false)
+			A := c.run(p, seed, nil, 0)
+			if A == nil {
 				continue
 			}
 			if dump {
@@ -324,10 +427,8 @@ func main() {
 				continue
 			}
 			for _, j := range A.IDs {
-				var B *obs
-				lab := map[sharing.ID]string{j: "b"}
-				if pn := vh.Safely(func() { B = p.Run(seed, lab) }); pn != "" {
-					c.mismatch("prop", p.Name+"-panic", "driver panicked: "+pn, caseText(p.Name, seed, j, "b"), "C07 harness", false)
+				B := c.run(p, seed, map[sharing.ID]string{j: "b"}, 0)
+				if B == nil {
 					continue
 				}
 				c.pairCheck(p, seed, j, A, B)
@@ -345,10 +446,8 @@ func main() {
 				}
 				runs := []*obs{A}
 				for s := 1; s < n; s++ {
-					var S *obs
-					lab := labelsAll(A.IDs, fmt.Sprintf("s%d", s))
-					if pn := vh.Safely(func() { S = p.Run(seed, lab) }); pn != "" {
-						c.mismatch("prop", p.Name+"-panic", "driver panicked: "+pn, caseText(p.Name, seed, 0, "s"), "C07 harness", false)
+					S := c.run(p, seed, labelsAll(A.IDs, fmt.Sprintf("s%d", s)), 0)
+					if S == nil {
 						continue
 					}
 					if S.Err == "" {
@@ -357,6 +456,16 @@ func main() {
 					runs = append(runs, S)
 				}
 				c.freshCheck(p, seed, runs)
+			}
+			// the stingy-source family: tapes that serve at most k bytes per Read call
+			if si == 0 {
+				chunks := []int{[]int{1, 7, 31}[pi%3]}
+				if a.Tier == "thorough" || a.Search {
+					chunks = []int{1, 7, 31}
+				}
+				for ci, ch := range chunks {
+					c.stingy(p, seed, ch, pi+ci)
+				}
 			}
 		}
 		res.Note("time %s: %.1fs", p.Name, time.Since(t0).Seconds())
